@@ -10,7 +10,7 @@ demo() {
   if [ -f "$sd/run.sh" ]; then sh "$sd/run.sh" >"$sd/.demo.log" 2>&1
   elif [ -f "$sd/run_demo.sh" ]; then sh "$sd/run_demo.sh" >"$sd/.demo.log" 2>&1
   elif [ -d "$sd/demo" ] && [ -f "$sd/demo/go.mod" ]; then (cd "$sd/demo" && go test -count=1 ./...) >"$sd/.demo.log" 2>&1
-  elif ls "$sd"/*_test.go >/dev/null 2>&1; then go test -vet=off -count=1 -tags "seeddemo seed_demo" "./SEED/$x/" >"$sd/.demo.log" 2>&1
+  elif ls "$sd"/*_test.go >/dev/null 2>&1; then go test -vet=off -count=1 -tags "seeddemo seed_demo seed" "./SEED/$x/" >"$sd/.demo.log" 2>&1
   elif [ -f "$sd/demo.sh" ]; then sh "$sd/demo.sh" >"$sd/.demo.log" 2>&1
   else echo "no known demo runner"; return 99; fi
 }
